@@ -82,6 +82,9 @@ func vfHook(point string) {
 	if rec != nil {
 		rec.Emit(M{"ev": "hook", "att": att, "p": point, "g": goid()})
 	}
+	if sc := currentSched(); sc != nil {
+		sc.enter(point) // scripted attempt: block until the script lets this goroutine take its next step
+	}
 	if seed != 0 {
 		x := seed ^ (n * 0x9e3779b97f4a7c15)
 		for i := 0; i < len(point); i++ {
@@ -345,6 +348,7 @@ type AttemptPlan struct {
 	SkipError         bool // the caller does not call Error() after this attempt (Stream already returned an error)
 	HookTrace         bool // record the library's hook points of this attempt (implementation-level trace)
 	HookFuzz          uint64 // non-zero: seeded pseudo-random delays at every hook point
+	Script            [][]string // non-nil: a behaviour of MC_Conn (Gen_Conn.tla) replayed with the hook points as scheduler gates
 }
 
 func defaultAttempt() AttemptPlan {
@@ -355,7 +359,7 @@ func (a AttemptPlan) J() M {
 	m := M{"pacing": a.Pacing, "end": a.End, "connfault": orNone(a.ConnFault), "handlerErrAt": a.HandlerErrAt,
 		"mapperFault": orNone(a.MapperFault), "handlerErrKind": orNone(a.HandlerErrKind), "cancelAtTx": a.CancelAtTx, "cancelAtPkt": a.CancelAtPkt,
 		"handlerBlock": a.HandlerBlock, "releaseDelayMs": a.ReleaseDelayMs, "scribble": a.Scribble, "dead": a.Dead, "cancelAfterReturn": a.CancelAfterReturn,
-		"logDelayMs": a.LogDelayMs, "skipError": a.SkipError, "hookTrace": a.HookTrace, "hookFuzz": a.HookFuzz != 0}
+		"logDelayMs": a.LogDelayMs, "skipError": a.SkipError, "hookTrace": a.HookTrace, "hookFuzz": a.HookFuzz != 0, "scripted": a.Script != nil}
 	if a.Fault != nil {
 		m["fault"] = M{"kind": a.Fault.Kind, "at": a.Fault.At, "code": int(a.Fault.Code), "msg": B(a.Fault.Msg)}
 	} else {
@@ -635,6 +639,13 @@ func (rs *runState) runAttempt(att int, a AttemptPlan, dsnOverride string) {
 		connRec = rs.master.SetPlan(plan)
 	}
 
+	var sched *Sched
+	scriptDone := make(chan struct{})
+	if a.Script != nil {
+		sched = newSched()
+	} else {
+		close(scriptDone)
+	}
 	callerG := goid()
 	var hmu sync.Mutex
 	handled := 0
@@ -686,6 +697,16 @@ func (rs *runState) runAttempt(att int, a AttemptPlan, dsnOverride string) {
 			}
 		}
 		var err error
+		if sched != nil {
+			sched.enter("handler.enter") // the script decides when, and with what, the handler returns
+			sched.mu.Lock()
+			hf := sched.handlerFail
+			sched.handlerFail = false
+			sched.mu.Unlock()
+			if hf {
+				err = fmt.Errorf("vf: handler failure at %d (script)", k)
+			}
+		}
 		if a.HandlerErrAt == k {
 			// the handler may fail with ANY error value, including ones the library gives a meaning to elsewhere
 			switch a.HandlerErrKind {
@@ -751,12 +772,57 @@ func (rs *runState) runAttempt(att int, a AttemptPlan, dsnOverride string) {
 		// The handler must run on the goroutine that called Stream: call Stream here and compare ids.
 		callerG = goid()
 		atomic.StoreInt64(&logFastG, int64(callerG)) // only the library's own goroutines see the slow log sink
+		if sched != nil {
+			sched.mu.Lock()
+			sched.caller = callerG
+			sched.mu.Unlock()
+			setSched(sched)
+		}
 		err = rs.streamer.Stream(ctx, handler)
 		close(done)
 	}()
+	// what the script and the epilogue share: the return line is written once, Error() calls are numbered
+	var retOnce sync.Once
+	emitReturn := func() {
+		retOnce.Do(func() {
+			cmu.Lock()
+			wasCancelled := !cancelledAt.IsZero()
+			cmu.Unlock()
+			rec.Emit(M{"ev": "streamReturn", "att": att, "returned": true, "res": errJ(err), "ms": int(time.Since(t0) / time.Millisecond),
+				"cancelledBefore": wasCancelled})
+		})
+	}
+	errCalls := 0
+	var errPending <-chan error
+	if sched != nil {
+		sr := &scriptRun{s: sched, steps: a.Script, done: done, cancel: doCancel, emitReturn: func() { <-done; emitReturn() },
+			callError: func() (<-chan error, int) {
+				errCalls++
+				call := errCalls
+				ch := make(chan error, 1)
+				go func() {
+					// Error() cannot be gated (it has no hook point): its return is logged when it happens
+					e := rs.streamer.Error()
+					rec.Emit(M{"ev": "errorReturn", "att": att, "call": call, "returned": true, "res": errJ(e)})
+					ch <- e
+				}()
+				return ch, errCalls
+			},
+			emitError: func(call int, e error) {},
+			note: func(i int, want, got string) {
+				rec.Emit(M{"ev": "scriptDiverged", "att": att, "step": i, "action": strings.Join(a.Script[i], ":"), "want": want, "got": got})
+			}}
+		followed := sr.run()
+		errPending = sr.errPending
+		sched.freeRun()
+		setSched(nil)
+		rec.Emit(M{"ev": "script", "att": att, "followed": followed, "steps": len(a.Script)})
+		close(scriptDone)
+	}
 	// "cancel" end: cancel once the master has sent everything and the streamer went quiet.
 	if (a.End == "cancel" || a.End == "idle") && connRec != nil {
 		go func() {
+			<-scriptDone
 			deadline := time.Now().Add(waitBound)
 			for time.Now().Before(deadline) {
 				_, s := connRec.snapshot()
@@ -793,6 +859,13 @@ func (rs *runState) runAttempt(att int, a AttemptPlan, dsnOverride string) {
 				}
 				time.Sleep(10 * time.Millisecond)
 			}
+			select {
+			case <-done:
+				// the stream has ended by itself in the meantime: nothing to end
+				release()
+				return
+			default:
+			}
 			doCancel("end")
 			release()
 		}()
@@ -823,11 +896,7 @@ func (rs *runState) runAttempt(att int, a AttemptPlan, dsnOverride string) {
 			return
 		}
 	} else {
-		cmu.Lock()
-		wasCancelled := !cancelledAt.IsZero()
-		cmu.Unlock()
-		rec.Emit(M{"ev": "streamReturn", "att": att, "returned": true, "res": errJ(err), "ms": int(el / time.Millisecond),
-			"cancelledBefore": wasCancelled})
+		emitReturn()
 	}
 	release()
 	tRet := time.Now()
@@ -835,8 +904,17 @@ func (rs *runState) runAttempt(att int, a AttemptPlan, dsnOverride string) {
 		doCancel("after-return")
 	}
 
+	// an Error() call the script started and did not see return: it must return now
+	if errPending != nil {
+		select {
+		case <-errPending:
+		case <-time.After(waitBound):
+			rec.Emit(M{"ev": "errorReturn", "att": att, "call": errCalls, "returned": false, "res": errJ(nil)})
+			errCalls = 2
+		}
+	}
 	// Error(): must return, whatever happened.
-	for call := 1; call <= 2 && !a.SkipError; call++ {
+	for call := errCalls + 1; call <= 2 && !a.SkipError; call++ {
 		ech := make(chan error, 1)
 		go func() { ech <- rs.streamer.Error() }()
 		select {
